@@ -259,6 +259,12 @@ class FailJobs(Jobs):
             return None   # membership / ending: judged by C08 / C09
         after = {ns: [i for i in w.live() if gt_state(w, i, ns) in RUNNING_LIKE] for ns in cfg['watch']}
         rv = next(m for m in w.monitors if isinstance(m, FailureMonitor)).rv
+        mon = next(m for m in w.monitors if isinstance(m, FailureMonitor))
+        if cfg.get('max_starts') is not None:
+            for (kind, ns, _t), cnt in mon.actions.items():
+                if kind == 'START_PROCESS' and cnt > cfg['max_starts'].get(ns, 99):
+                    return {'clause': 'superseded-action-applied', 'signature': f'C06:extra-start:{cfg["name"]}',
+                            'process': ns, 'starts': cnt, 'allowed': cfg['max_starts'].get(ns)}
         expect = cfg.get('expect')
         if expect is None:
             return None
@@ -302,6 +308,35 @@ def e1_configs(t):
                          prog('b', 2, identifiers='10.0.0.1:25000')])
     out.append(e1_base('master-loss-auto-application', 'RESTART_PROCESS', nicks=['zz', 'aa', 'mm'], apps=[Aauto],
                        setup=[], expect={'A:a': 1, 'A:b': 1}, T=4))
+    # several failures hit one application together: a single action, by precedence
+    def mixed(sa, sb):
+        return app('A', 0, [prog('a', 1, running_failure_strategy=sa, identifiers='10.0.0.2:25001'),
+                            prog('b', 1, running_failure_strategy=sb, identifiers='10.0.0.2:25001'),
+                            prog('c', 2, identifiers='10.0.0.1:25000')])
+    out.append(e1_base('loss-mixed-RESTART_PROCESS+STOP_APPLICATION', 'STOP_APPLICATION',
+                       apps=[mixed('RESTART_PROCESS', 'STOP_APPLICATION')], watch=['A:a', 'A:b', 'A:c'],
+                       expect={'A:a': 0, 'A:b': 0, 'A:c': 0}, max_starts={'A:a': 0, 'A:b': 0, 'A:c': 0}))
+    out.append(e1_base('loss-mixed-STOP_APPLICATION+RESTART_PROCESS', 'STOP_APPLICATION',
+                       apps=[mixed('STOP_APPLICATION', 'RESTART_PROCESS')], watch=['A:a', 'A:b', 'A:c'],
+                       expect={'A:a': 0, 'A:b': 0, 'A:c': 0}, max_starts={'A:a': 0, 'A:b': 0, 'A:c': 0}))
+    out.append(e1_base('loss-mixed-RESTART_APPLICATION+RESTART_PROCESS', 'RESTART_APPLICATION',
+                       apps=[app('A', 0, [prog('a', 1, running_failure_strategy='RESTART_APPLICATION',
+                                               identifiers='10.0.0.2:25001,10.0.0.3:25002'),
+                                          prog('b', 1, running_failure_strategy='RESTART_PROCESS',
+                                               identifiers='10.0.0.2:25001,10.0.0.3:25002'),
+                                          prog('c', 2, identifiers='10.0.0.1:25000')])],
+                       watch=['A:a', 'A:b', 'A:c'], expect={'A:a': 1, 'A:b': 1, 'A:c': 1},
+                       max_starts={'A:a': 1, 'A:b': 1, 'A:c': 1}))
+    # an application made of RESTART_PROCESS programs only, all on the lost instance: promoted once
+    out.append(e1_base('loss-all-RESTART_PROCESS-promoted', 'RESTART_PROCESS',
+                       apps=[app('A', 0, [prog('a', 1, running_failure_strategy='RESTART_PROCESS',
+                                               identifiers='10.0.0.2:25001,10.0.0.3:25002'),
+                                          prog('b', 1, running_failure_strategy='RESTART_PROCESS',
+                                               identifiers='10.0.0.2:25001,10.0.0.3:25002')])],
+                       watch=['A:a', 'A:b'], expect={'A:a': 1, 'A:b': 1}, max_starts={'A:a': 1, 'A:b': 1}))
+    # both iteration orders of the set of lost processes (see world._SET_ORDER)
+    for c in [c for c in out if 'mixed' in c['name'] or 'promoted' in c['name']]:
+        out.append(dict(c, set_order='rev', name=c['name'] + '-rev'))
     # process crash: application-level strategies only
     out.append(e1_base('crash-RESTART_APPLICATION', 'RESTART_APPLICATION', F=0, faults=[], behaviours=['run', 'stopped', 'exit_bad'],
                        expect=None, T=3))
